@@ -447,7 +447,7 @@ fn judge_locations(run: &Run, c: &Case, a: &Asset, fails: &mut Vec<Fail>) {
     for l in locs.iter().filter(|l| l.0 != "Cai") {
         let (s, e) = (l.1, l.1.saturating_add(l.2));
         if l.2 > 0 && cl > 0 && s < cend && co < e {
-            fails.push(Fail::new(format!("C12:locations-cai-overlaps-{}:{kind}{mal}", l.0.to_lowercase()), format!("Cai region [{co},{cend}) overlaps the {} region [{s},{e}) {}", l.0, ctx())));
+            fails.push(Fail::new(format!("C12:locations-cai-overlaps-other:{kind}{mal}") /* "other" = any non-Cai region (Other, Xmp, OtherExclusion) */, format!("Cai region [{co},{cend}) overlaps the {} region [{s},{e}) {}", l.0, ctx())));
             break;
         }
     }
@@ -595,8 +595,8 @@ fn main() {
     run.extra("fixtures", json!(fx.iter().map(|c| c.fixture.clone().unwrap()).collect::<Vec<_>>()));
     run.drive_enum("fixtures", fx, |c| judge(&run, c));
 
-    let n_box: u32 = run.scale(400, 5000);
-    let n_other: u32 = run.scale(150, 1500);
+    let n_box: u32 = run.scale(400, 15000);
+    let n_other: u32 = run.scale(150, 4000);
     for kind in assets::KINDS.iter().copied().chain(["c2pa"]) {
         let kind: &'static str = kind;
         let boxhash = capable.contains(&kind);
